@@ -77,7 +77,8 @@ def check_growth(case):
     res = R()
     sp = case["spec"]
     dt, n = case["dt"], case["n"]
-    tp = np.array([i * dt for i in range(n)], dtype=float)
+    k0 = int(case.get("first_step", 0))     # the first reported time may lie after the start of the simulation (time 0)
+    tp = np.array([(k0 + i) * dt for i in range(n)], dtype=float)
     V0, g = case["V0"], case["g"]
     with specmod.quiet():
         M = specmod.to_model(sp)
@@ -111,6 +112,9 @@ def check_growth(case):
     zero_prop = case["zero_propensity"]
     tag = "zero_propensity" if zero_prop else "positive_propensity"
     res.label("growth:" + case["vtype"], tag, "noise" if noise > 0 else "no_noise")
+    if m == 0 and k0 > 0 and divided:
+        res.skip = "division before the first reported time"
+        return res
     if m == 0 or m > n or not np.array_equal(times, tp[:m]) or len(vols) != m or data.shape[0] != m:
         res.fail(("result_not_a_prefix_of_the_grid", tag), times=[float(x) for x in times[:5]], rows=int(m), requested=int(n))
         return res
@@ -143,17 +147,23 @@ def check_growth(case):
         if near_boundary:
             res.skip = "division exactly on a grid step"
             return res
+        if k0:
+            res.label("grid_starts_after_simulation_start")
+            if kstar <= k0 + 1:
+                res.skip = "division before the first reported time"
+                return res
+        kstar -= k0          # from here on counted in rows of the reported grid
         if kstar <= n - 2:
             res.label("division_inside_horizon")
             if not divided or abs((m - 1) - kstar) > 1:
                 res.fail(("division_step", tag, case["vtype"]), divided=divided, last_row_time=float(times[-1]),
-                         expected_time=kstar * dt, dt=dt)
+                         expected_time=(kstar + k0) * dt, dt=dt)
                 return res
         elif kstar >= n + 1:
             res.label("division_beyond_horizon")
             if divided or m != n:
                 res.fail(("divided_before_time", tag, case["vtype"]), divided=divided, rows=int(m), requested=int(n),
-                         expected_division_time=kstar * dt)
+                         expected_division_time=(kstar + k0) * dt)
                 return res
     res.nontrivial = zero_prop or (divided and m < n)
     return res
@@ -233,7 +243,8 @@ def growth_cases(draw):
     sp["params"]["gr"] = g
     case = {"kind": "growth", "spec": sp, "vtype": vtype, "g": g, "V0": V0, "Vdiv": Vdiv, "dt": dt, "n": n,
             "noise": draw(st.sampled_from([0.0, 0.0, 0.0, 0.05, 0.2])), "zero_propensity": zero,
-            "growth_expr": draw(st.sampled_from(["gr", "gr + 0*A", "gr*1"])), "seed": draw(st.integers(1, 2 ** 40))}
+            "growth_expr": draw(st.sampled_from(["gr", "gr + 0*A", "gr*1"])), "seed": draw(st.integers(1, 2 ** 40)),
+            "first_step": draw(st.sampled_from([0, 0, 0, 1, 2, 5]))}
     return case
 
 
